@@ -233,6 +233,7 @@ impl Model {
             (Ty::Any, _) => true,
             (Ty::Null, V::Null) => true,
             (Ty::Int, V::Int(_)) => true,
+            (Ty::Rational, V::Rat(_)) => true,
             (Ty::Float, V::Float(_)) => true,
             (Ty::Complex, V::Cx(..)) => true,
             (Ty::Number, x) if is_num(x) => true,
@@ -245,11 +246,11 @@ impl Model {
             (Ty::Func, V::Func(_)) => true,
             (Ty::Type, V::Func(f)) => matches!(&**f, FuncV::Type(_)),
             (Ty::Struct(s), V::Inst(t, _)) => s == t,
+            (Ty::StructInstance, V::Inst(..)) => true,
             (Ty::Satisfying(f), x) => {
                 let r = self.call_func(f, vec![x.clone()])?;
                 self.truthy(&r)?
             }
-            // NB: `rational` as a type never matches (is_type has no arm for it)
             _ => false,
         })
     }
@@ -1588,7 +1589,73 @@ impl Model {
                 V::Inst(s2, fields) if s2 == *sid => self.assign_all(sc, args, rt, fields),
                 _ => throw("type error: destructuring structure failed"),
             },
-            ELv::DBuiltin(..) => unknown("builtin destructure"),
+            ELv::DBuiltin(name, args) => {
+                // patterns that invert a constructor
+                let res: Vec<V> = match (name.as_str(), &rhs) {
+                    ("append", V::List(xs)) | ("+.", V::List(xs)) => match xs.split_last() {
+                        Some((last, rest)) => vec![V::List(rest.to_vec()), last.clone()],
+                        None => return throw("value error: append destructured empty"),
+                    },
+                    (".+", V::List(xs)) => match xs.split_first() {
+                        Some((first, rest)) => vec![first.clone(), V::List(rest.to_vec())],
+                        None => return throw("value error: prepend destructured empty"),
+                    },
+                    ("append", V::Str(_)) | ("+.", V::Str(_)) | (".+", V::Str(_)) => {
+                        return unknown("string destructure")
+                    }
+                    ("append", V::Vector(_)) | ("+.", V::Vector(_)) | (".+", V::Vector(_)) | ("append", V::Bytes(_))
+                    | ("+.", V::Bytes(_)) | (".+", V::Bytes(_)) | ("append", V::Dict(_)) | ("+.", V::Dict(_))
+                    | (".+", V::Dict(_)) | ("append", V::Stream(_)) | ("+.", V::Stream(_)) | (".+", V::Stream(_)) => {
+                        return unknown("non-list destructure")
+                    }
+                    ("append", _) | ("+.", _) | (".+", _) => return throw("type error: destructured non-seq"),
+                    ("+", V::Int(r)) => {
+                        if args.len() != 2 {
+                            return throw("type error: + failed to destructure");
+                        }
+                        match (&args[0], &args[1]) {
+                            (ELv::Lit(V::Int(a)), b) if !matches!(b, ELv::Lit(_)) => {
+                                let diff = r - a;
+                                if diff.is_negative() {
+                                    return throw("value error: + computed negative");
+                                }
+                                vec![V::Int(a.clone()), V::Int(diff)]
+                            }
+                            (a, ELv::Lit(V::Int(b))) if !matches!(a, ELv::Lit(_)) => {
+                                let diff = r - b;
+                                if diff.is_negative() {
+                                    return throw("value error: + computed negative");
+                                }
+                                vec![V::Int(diff), V::Int(b.clone())]
+                            }
+                            (ELv::Lit(_), ELv::Lit(_)) => return throw("type error: + failed to destructure"),
+                            (ELv::Lit(_), _) | (_, ELv::Lit(_)) => return unknown("+ destructure with non-int literal"),
+                            _ => return throw("type error: + failed to destructure"),
+                        }
+                    }
+                    ("+", x) if is_num(x) => return unknown("+ destructure of non-int"),
+                    ("+", _) => return throw("type error: + failed to destructure"),
+                    ("-", V::Int(r)) => {
+                        if args.len() != 1 {
+                            return throw("type error: - can only destructure 1");
+                        }
+                        vec![V::Int(-r)]
+                    }
+                    ("-", x) if is_num(x) || matches!(x, V::Vector(_)) => return unknown("- destructure of non-int"),
+                    ("-", _) => {
+                        if args.len() != 1 {
+                            return throw("type error: - can only destructure 1");
+                        }
+                        return throw("argument error: destructuring - only accepts numbers");
+                    }
+                    _ => return unknown("builtin destructure"),
+                };
+                if res.len() == args.len() {
+                    self.assign_all(sc, args, rt, res)
+                } else {
+                    throw("type error: destructure length didn't match")
+                }
+            }
         }
     }
 
@@ -2112,7 +2179,7 @@ pub fn type_of(v: &V) -> Ty {
         V::Vector(_) => Ty::Vector,
         V::List(_) => Ty::List,
         V::Dict(_) => Ty::Dict,
-        V::Inst(..) => Ty::Any, // struct_instance: not modelled as a first-class type
+        V::Inst(..) => Ty::StructInstance,
         V::Func(f) => match &**f {
             FuncV::Type(_) => Ty::Type,
             _ => Ty::Func,
